@@ -28,7 +28,7 @@ def sqlLines (d : Nat) (batch : List Row) : List (List String) :=
 
 /-- the oracle (tuple level, no reap in the case): every batch holds rows of one tuple only, and per
 tuple the batches are, in order, the full chunks of N of its rows -/
-def chunkSpec (n : Nat) (rows : List Row) (batches : List (List Int)) : String :=
+def chunkSpec (n : Nat) (rows : List Row) (batches : List (List Int)) (keep : List Int → Bool := fun _ => true) : String :=
   let nrows := normRows rows
   let tupleOf (i : Int) : Option (List Val) := (nrows.find? fun r => r.2 == i).map Prod.fst
   if !(batches.all fun b => b.all fun i => (tupleOf i).isSome) then "fail:unknown-row-in-result"
@@ -39,7 +39,7 @@ def chunkSpec (n : Nat) (rows : List Row) (batches : List (List Int)) : String :
     let tuples := (nrows.map Prod.fst).eraseDups
     let bad := tuples.filter fun t =>
       let got := batches.filter fun b => (b.head?.bind tupleOf) == some t
-      got != CountingSpec.fullChunks n (CountingSpec.rowsOf nrows t)
+      got != (CountingSpec.fullChunks n (CountingSpec.rowsOf nrows t)).filter keep
     if bad.isEmpty then "ok" else "fail:results-of-a-key-differ-from-its-chunks-of-N"
 
 def parseE (l : List String) : Option (List Int) :=
@@ -64,6 +64,11 @@ def run (c : Case) : CaseOut := Id.run do
   let nest := cfgGet c "nest" "0" == "1"
   let arity := (cfgGet c "arity" "0").toNat?.getD 0
   let quals := List.replicate arity nest
+  -- cfg `having T` (sql mode): `HAVING l >= T` with l = last_value(id): a chunk is delivered iff its last id is at least T
+  let havingT : Option Int := (cfgGet c "having" "").toInt?
+  let keep (ids : List Int) : Bool := match havingT with
+    | none => true
+    | some t => match ids.getLast? with | some l => decide (t ≤ l) | none => false
   let mut obs : List (List (List String)) := []
   let mut spec := "ok"
   let mut tags : List String := []
@@ -101,8 +106,9 @@ def run (c : Case) : CaseOut := Id.run do
       if mode == "sql" then
         let mut ls : List (List String) := []
         for b in pending do
-          ls := ls ++ sqlLines delivered b
-          delivered := delivered + 1
+          if keep (b.map Prod.snd) then
+            ls := ls ++ sqlLines delivered b
+            delivered := delivered + 1
         obs := obs ++ [ls]
         match implObs.mapM parseD with
         | none => if spec == "ok" then spec := "fail:unreadable-result"
@@ -122,7 +128,7 @@ def run (c : Case) : CaseOut := Id.run do
     | _ => obs := obs ++ [[["bad-op"]]]
   -- rows after the last flush are unobserved: the oracle speaks only about cases that end with a flush
   let endsWithFlush := (c.ops.getLast?.map Prod.fst) == some ["flush"]
-  if !reaped && endsWithFlush && spec == "ok" then spec := chunkSpec n rows implBatches
+  if !reaped && endsWithFlush && spec == "ok" then spec := chunkSpec n rows implBatches keep
   tags := [s!"mode-{mode}", if reaped then "reap-outside-quantifier" else "no-reap"]
   if fired then tags := "fired" :: tags
   if carried then tags := "buffer-carried-over" :: tags
